@@ -34,6 +34,8 @@ CLAIMS = {
          "that the last curve point equals the last control point on a group rests on X+(Y-X)=Y (C04), measured by the oracle"),
  "C18": ("proof", "Over every ordered field: tangent isApprox reflexive (eps >= 0) and symmetric; against the zero tangent it is exactly the component-wise absolute test, so X.isApprox(Y, eps) <=> every component of X (-) Y is <= eps, hence true well below and false well above eps; Eigen's halving reduction proved equal to the plain sum. isApprox/== of every group and of tangents tied bit-for-bit to the code on pairs at controlled tangent distance {0, 0.01, 0.5, 0.999, 1.001, 2, 100} eps, q/-q pairs, coordinates up to 1e9; oracle checks reflexivity (all scales), symmetry, below/above at 60 digits.",
          "floating-point reflexivity for large coordinates is rounding behaviour: measured (it exposed SE2::inverse, repaired)"),
+ "C13": ("proof", "Over every ordered field: with assertions enabled a raw-coefficient constructor accepts exactly |norm-1| < eps, with NDEBUG it never rejects; normalize() makes any non-degenerate quaternion valid; rotation() of a valid element is orthonormal with determinant +1 (SO3-family and SO2/SE2); SO2(theta).angle() = theta on the principal range (R). Every constructor/setter/accessor (angle, x-y-theta, roll-pitch-yaw incl. gimbal configurations, angle-axis incl. non-unit axes, t+quaternion, t+SO3, Eigen isometry incl. trace<=0 rotations, quat setter, raw coefficients, normalize) is tied bit-for-bit to the code in BOTH build configurations with norms on both sides of the threshold — the model predicts every accept/reject decision exactly; oracle checks that accessors reproduce the supplied quantities.",
+         "cast<float>() needs the single-precision instantiation (in progress); threshold behaviour at 1 ulp is tied by the correspondence only"),
 }
 
 checks = []
